@@ -76,6 +76,12 @@ Theorem c01_parse_many : forall reg s a b c, trim_space s = a ++ tilde :: b ++ t
 Proof. exact parse_range_many. Qed.
 Print Assumptions c01_parse_many.
 
+(* non-vacuity: "info~warn~error" on the generated level table is [INFO, MAX), and so is "info~bogus~" *)
+Example c01_parse_many_ex :
+  parse_range builtin_levels [105;110;102;111;126;119;97;114;110;126;101;114;114;111;114]%N = Some (lvl_info, lvl_max) /\
+  parse_range builtin_levels [105;110;102;111;126;98;111;103;117;115;126]%N = Some (lvl_info, lvl_max).
+Proof. split; vm_compute; reflexivity. Qed.
+
 (* ... and these four cases are all there is: every trimmed range string falls under c01_parse_empty,
    c01_parse_single, c01_parse_pair or c01_parse_many *)
 Theorem c01_parse_cases_exhaustive : forall t : bytes,
